@@ -311,6 +311,18 @@ func runChain(a map[string]string, _ service.TransactionPool) {
 		if r.Bool() {
 			c.deliver(c.build(a2, 1, nil))
 		}
+		// a block whose only transaction is not addable: no receipt, empty transaction list, non-empty evicted list
+		poor2 := c.newTxFrom(chPoor, uint64(1000+hno), 0)
+		out.Emit("add "+strconv.Itoa(poor2), hx.Guard(func() string {
+			ok, err := service.GetTransactionPool().AddTransaction(w.txs[poor2])
+			if ok && err == nil {
+				return "ok"
+			}
+			return "err"
+		}))
+		if hd := c.byHash[core.VerifC05Head().Hash]; hd != nil {
+			c.deliver(c.build(hd, 1, []int{poor2}))
+		}
 		// a block of branch A again (BlockExisted), and a fork block that still carries executed transactions (refused)
 		c.deliver(a1)
 		c.deliver(c.build(base, 9, ids[:1]))
